@@ -178,14 +178,14 @@ theorem idStart_setGauge {gs : List Gauge} {g0 g' : Gauge} (hm : g0 ∈ gs) (hn 
   · rfl
 
 /-- every record after the loop is an untouched old record or the post-distribution record of a snapshot gauge. -/
-theorem distributeLoop_records {thr : Thr} {locks : List Lock} {snap store : List Gauge} {info : Info}
+theorem distributeLoop_records {thr : MinVal} {locks : List Lock} {snap store : List Gauge} {info : Info}
     {store' : List Gauge} {info' : Info}
     (h : distributeLoop thr locks snap store info = some (store', info'))
     (hn : (store.map (·.id)).Nodup) (hm : ∀ g ∈ snap, g ∈ store) (hsn : (snap.map (·.id)).Nodup) :
     idStart store' = idStart store ∧
-    ∀ x ∈ store', x ∈ store ∨ ∃ g ∈ snap, ∃ total pays, distributeGauge thr locks g = some (some (total, pays)) ∧
+    ∀ x ∈ store', x ∈ store ∨ ∃ g ∈ snap, ∃ m total pays, distributeGauge m locks g = some (some (total, pays)) ∧
       x = g.postDistribute total := by
-  induction snap generalizing store info with
+  induction snap generalizing store info thr with
   | nil => simp only [distributeLoop] at h; cases h; exact ⟨rfl, fun x hx => Or.inl hx⟩
   | cons g gs ih =>
     simp only [List.map_cons, List.nodup_cons] at hsn
@@ -200,9 +200,9 @@ theorem distributeLoop_records {thr : Thr} {locks : List Lock} {snap store : Lis
       | none =>
         obtain ⟨i1, i2⟩ := ih h hn hgs hsn.2
         refine ⟨i1, fun x hx => ?_⟩
-        rcases i2 x hx with h' | ⟨g2, hg2, t, p, hdd, hxx⟩
+        rcases i2 x hx with h' | ⟨g2, hg2, m2, t, p, hdd, hxx⟩
         · exact Or.inl h'
-        · exact Or.inr ⟨g2, List.mem_cons_of_mem _ hg2, t, p, hdd, hxx⟩
+        · exact Or.inr ⟨g2, List.mem_cons_of_mem _ hg2, m2, t, p, hdd, hxx⟩
       | some tp =>
         obtain ⟨total, pays⟩ := tp
         simp only at h
@@ -214,18 +214,18 @@ theorem distributeLoop_records {thr : Thr} {locks : List Lock} {snap store : Lis
           exact hsn.1 (List.mem_map.mpr ⟨x, hx, hh⟩)
         obtain ⟨i1, i2⟩ := ih h hn1 hgs1 hsn.2
         refine ⟨by rw [i1]; exact idStart_setGauge hgm hn rfl rfl, fun x hx => ?_⟩
-        rcases i2 x hx with h' | ⟨g2, hg2, t, p, hdd, hxx⟩
+        rcases i2 x hx with h' | ⟨g2, hg2, m2, t, p, hdd, hxx⟩
         · rcases mem_setGauge h' with rfl | h''
-          · exact Or.inr ⟨g, List.mem_cons_self .., total, pays, hd, rfl⟩
+          · exact Or.inr ⟨g, List.mem_cons_self .., thr, total, pays, hd, rfl⟩
           · exact Or.inl h''
-        · exact Or.inr ⟨g2, List.mem_cons_of_mem _ hg2, t, p, hdd, hxx⟩
+        · exact Or.inr ⟨g2, List.mem_cons_of_mem _ hg2, m2, t, p, hdd, hxx⟩
 
 /-- records whose id is not in the snapshot are not touched. -/
-theorem distributeLoop_untouched {thr : Thr} {locks : List Lock} {snap store : List Gauge} {info : Info}
+theorem distributeLoop_untouched {thr : MinVal} {locks : List Lock} {snap store : List Gauge} {info : Info}
     {store' : List Gauge} {info' : Info}
     (h : distributeLoop thr locks snap store info = some (store', info'))
     {x : Gauge} (hx : x ∈ store) (hni : x.id ∉ snap.map (·.id)) : x ∈ store' := by
-  induction snap generalizing store info with
+  induction snap generalizing store info thr with
   | nil => simp only [distributeLoop] at h; cases h; exact hx
   | cons g gs ih =>
     simp only [List.map_cons, List.mem_cons, not_or] at hni
@@ -450,7 +450,7 @@ theorem epochFacts {s : State} {now : Int} {up act act' fin : Refs} {snap : List
   · intro i hh; exact List.mem_append.mp (p2.mem_iff.mp hh)
   · intro _; rw [p3.mem_iff, List.mem_append]
 
-theorem SInv_epoch {s s' : State} {now : Int} {thr : Thr} {locks : List Lock} {info : Info} (hi : Inv s) (hs : SInv s)
+theorem SInv_epoch {s s' : State} {now : Int} {thr : Quotes} {locks : List Lock} {info : Info} (hi : Inv s) (hs : SInv s)
     (h : epoch s now thr locks = some (s', info)) : SInv s' := by
   obtain ⟨up, act, snap, store, bal, act', fin, h1, h2, h3, h4, h5, rfl⟩ := epoch_unfold h
   have F := epochFacts hi h1 h2 h5
@@ -475,13 +475,13 @@ theorem SInv_epoch {s s' : State} {now : Int} {thr : Thr} {locks : List Lock} {i
     by show RefsAll _ fin; rw [hst]; exact kfin1, ?_, ?_, ?_, ?_⟩
   · -- upcoming
     intro x hx hxu
-    rcases hrec x hx with hold | ⟨g, hg, total, pays, _, rfl⟩
+    rcases hrec x hx with hold | ⟨g, hg, _, total, pays, _, rfl⟩
     · exact hs.up x hold (F.upSub _ hxu)
     · exact absurd hxu (F.actNotUp _ (hsnapid g hg))
   · -- active
     intro x hx hxa
     have hxact := F.act'Sub _ hxa
-    rcases hrec x hx with hold | ⟨g, hg, total, pays, _, rfl⟩
+    rcases hrec x hx with hold | ⟨g, hg, _, total, pays, _, rfl⟩
     · rcases F.actFrom _ hxact with hu | ha
       · have := hs.up x hold hu
         rcases hs.pos x hold with hp | hp
@@ -504,7 +504,7 @@ theorem SInv_epoch {s s' : State} {now : Int} {thr : Thr} {locks : List Lock} {i
         rcases hsnapstate g hg with hp | hp
         · rw [hnp] at hp; cases hp
         · exact hp
-      rcases hrec x hx with hxold | ⟨g2, hg2, total, pays, _, rfl⟩
+      rcases hrec x hx with hxold | ⟨g2, hg2, _, total, pays, _, rfl⟩
       · have : x = g := eq_of_id_eq hi.ids hxold (F.snapMem g hg) hgid.symm
         subst this
         exact ⟨hnp, hle, Nat.le_of_lt hlt⟩
@@ -512,11 +512,11 @@ theorem SInv_epoch {s s' : State} {now : Int} {thr : Thr} {locks : List Lock} {i
         subst this
         show g2.perpetual = false ∧ g2.numEpochs ≤ g2.filled + 1 + 1 ∧ g2.filled + 1 ≤ g2.numEpochs
         exact ⟨hnp, by omega, by omega⟩
-    · rcases hrec x hx with hxold | ⟨g, hg, total, pays, _, rfl⟩
+    · rcases hrec x hx with hxold | ⟨g, hg, _, total, pays, _, rfl⟩
       · exact hs.fin x hxold hold
       · exact absurd hold (F.actNotFin _ (hsnapid g hg))
   · intro x hx
-    rcases hrec x hx with hxold | ⟨g, hg, total, pays, _, rfl⟩
+    rcases hrec x hx with hxold | ⟨g, hg, _, total, pays, _, rfl⟩
     · exact hs.pos x hxold
     · exact hs.pos g (F.snapMem g hg)
 
